@@ -195,7 +195,10 @@ def synthetic(M, rng, i):
                 k = rng.choice([0, 1, 2])
                 for v in vs:
                     lvl = rng.randrange(4)
-                    vr = R.VResult(v, lvl >= 3, lvl >= 2, lvl >= 1,
+                    flags = (lvl >= 3, lvl >= 2, lvl >= 1)
+                    if rng.random() < 0.35:      # any triple: the property setters normalise it
+                        flags = tuple(rng.random() < 0.5 for _ in range(3))
+                    vr = R.VResult(v, flags[0], flags[1], flags[2],
                                    rnd_mwp(M, rng, vs) if rng.random() < 0.7 else None,
                                    rnd_choices(M, rng, k, rng.choice([0, 3, 3, 3, 1, 2])))
                     lr.variables[v] = vr
@@ -918,5 +921,3 @@ def replay(ctx, data):
         shutil.rmtree(tmp, ignore_errors=True)
     return None
 
-
-NOT_CLAIMED = "in progress"
